@@ -194,8 +194,8 @@ Definition p_acc1 (e : pop * res) : list Z :=
   match e with (PAdd x, RDone) | (PAddAnyway x, RDone) | (PPrior x, RDone) => [x] | _ => [] end.
 Definition p_accs (h : list (pop * res)) : list Z := flat_map p_acc1 h.      (* accepted items, in time order *)
 Definition is_prior (o : pop) : bool := match o with PPrior _ => true | _ => false end.
-Definition p_npriors (h : list (pop * res)) : nat :=
-  length (filter (fun e => match e with (PPrior _, RDone) => true | _ => false end) h).
+Definition prior_ok (e : pop * res) : bool := match e with (PPrior _, RDone) => true | _ => false end.
+Definition p_npriors (h : list (pop * res)) : nat := length (filter prior_ok h).      (* accepted prior adds *)
 
 Lemma p_step_conserve s o :
   Permutation (match snd (p_step s o) with RItem x => [x] | _ => [] end ++ items (fst (p_step s o)))
@@ -288,12 +288,11 @@ Qed.
 
 Lemma p_step_len s o : (0 < cap s)%Z ->
   (Z.of_nat (length (items (fst (p_step s o)))) <=
-   Z.max (Z.of_nat (length (items s))) (cap s) * 0 +
-   (if match o, snd (p_step s o) with PPrior _, RDone => true | _, _ => false end
+   (if prior_ok (o, snd (p_step s o))
     then Z.of_nat (length (items s)) + 1
     else Z.max (Z.of_nat (length (items s))) (cap s)))%Z.
 Proof.
-  intros Hc. rewrite Z.mul_0_r, Z.add_0_l.
+  intros Hc. unfold prior_ok.
   destruct o as [x|x|x| | | |]; cbn [p_step]; unfold p_add_anyway, p_add, p_prior, p_pop, p_close.
   - destruct (closed s); [cbn [fst snd]; lia|]. pose proof (full_spec (cap s) (length (items s))) as Hf.
     destruct (full (cap s) (length (items s))); cbn [fst snd items set_items]; [lia|].
@@ -302,9 +301,9 @@ Proof.
     destruct (full (cap s) (length (items s))); cbn [fst snd items set_items]; [lia|].
     rewrite app_length. cbn [length]. assert (~ (0 < cap s /\ cap s <= Z.of_nat (length (items s)))%Z) by (intros H; apply Hf in H; discriminate). lia.
   - destruct (closed s); cbn [fst snd items set_items length]; lia.
-  - destruct (items s) as [|y l]; [destruct (closed s); cbn [fst snd items length]; lia|].
-    destruct (true && closed s); cbn [fst snd items set_items length]; lia.
-  - destruct (items s) as [|y l]; [destruct (closed s); cbn [fst snd items length]; lia|].
+  - destruct (items s) as [|y l] eqn:Ei; [destruct (closed s); cbn [fst snd]; rewrite Ei; cbn [length]; lia|].
+    destruct (true && closed s); cbn [fst snd items set_items]; rewrite ?Ei; cbn [length]; lia.
+  - destruct (items s) as [|y l] eqn:Ei; [destruct (closed s); cbn [fst snd]; rewrite Ei; cbn [length]; lia|].
     cbn [andb fst snd items set_items length]. lia.
   - cbn [fst snd items]. lia.
   - cbn [fst snd]. lia.
@@ -317,13 +316,13 @@ Proof.
   induction ops as [|o ops IH]; intros s k Hc Hl; [cbn; split; [lia|reflexivity]|].
   cbn [h_run]. pose proof (p_step_len s o Hc) as H1. pose proof (p_step_cap s o) as H2.
   destruct (p_step s o) as [s' r] eqn:E. cbn [fst snd] in H1, H2.
-  set (b := match o, r with PPrior _, RDone => true | _, _ => false end) in *.
+  remember (prior_ok (o, r)) as b eqn:Eb.
   assert (Hc' : (0 < cap s')%Z) by lia.
   assert (Hl' : (Z.of_nat (length (items s')) <= cap s' + Z.of_nat (k + (if b then 1 else 0)))%Z)
     by (rewrite H2; destruct b; lia).
   specialize (IH s' _ Hc' Hl'). destruct (h_run p_step s' ops) as [h s'']. cbn [fst snd] in *.
   destruct IH as [IH1 IH2]. split; [|congruence].
-  unfold p_npriors in *. cbn [filter]. fold b.
+  unfold p_npriors in *. cbn [filter]. rewrite <- Eb.
   rewrite H2 in IH1. destruct b; cbn [length]; lia.
 Qed.
 
